@@ -7,6 +7,7 @@ import PcVerif.Model.DfxpTime
 import PcVerif.Model.SamiTime
 import PcVerif.Model.MicroDvd
 import PcVerif.Lemmas.StrLemmas
+import PcVerif.Lemmas.SamiLemmas
 namespace PcVerif.Props.C01
 open PcVerif PcVerif.Str
 
@@ -170,5 +171,13 @@ theorem dfxp_clock_frames (h m s f : Str) (hh : Digits h) (hm : D2 m) (hs : D2 s
     beq_self_eq_true, Bool.true_or, digitsOk3 hh hm.1 hs.1, Bool.not_true, hf.1.2]
   simp only [Dfxp.usH, Dfxp.usM, Dfxp.usS, Dfxp.frameBase, dfxp_constants_pinned.1, dfxp_constants_pinned.2.1,
     dfxp_constants_pinned.2.2.1, dfxp_constants_pinned.2.2.2.2.1]
+
+theorem sami_tail_pinned : Generated.samiTailMs = 4000 := by decide
+
+/-- **C01 (SAMI).** for a language whose <p> elements come in non-decreasing sync order — blank syncs and several
+    paragraphs per sync included — every cue with text starts at its sync time and lasts until the next sync of its
+    language with a different time; the cues of the last sync last four seconds -/
+theorem sami_backfill (ps : List (Nat × Bool)) (hs : Sami.SortedFrom 0 ps) :
+    Sami.translateLang ps = Sami.specLang ps := Sami.sami_backfill ps hs
 
 end PcVerif.Props.C01
